@@ -69,8 +69,8 @@ impl<'a> G<'a> {
     /// number of blocks with a bias towards 0, 1, W-1, W, W+1, 2W, 2W+1, 3W+2 (full groups + tails);
     /// `max` is a soft cap that is raised so that at least two full groups and a tail fit
     fn nblocks(&mut self, w: usize, max: usize) -> usize {
-        let cap = max.max(3 * w + 2).min(100);
-        let c = [0, 1, 2, w.saturating_sub(1), w, w + 1, 2 * w, 2 * w + 1, 3 * w + 2];
+        let cap = max.max(4 * w + 1).min(130);
+        let c = [0, 1, 2, w.saturating_sub(1), w, w + 1, 2 * w, 2 * w + 1, 3 * w + 2, 4 * w + 1];
         let n = if self.rng.chance(1, 2) { *self.rng.pick(&c) } else { self.rng.range(0, cap.min(2 * w + 3).max(max)) };
         n.min(cap)
     }
